@@ -4,6 +4,7 @@ CONSTANTS
   EqPool <- MCEqPool
   MaxEqs <- MCMaxEqs
   InsBase <- MCInsBase
+  Patterns <- MCPatterns
 INIT Init
 NEXT Next
 INVARIANTS TypeOK Normal IncrementalIsBatch ContainsSeeds Congruent Equivariant Emit
